@@ -61,6 +61,17 @@ def run(run, binfo):
             g = variants(rng, base)
             groups.append((len(cases), len(g)))
             cases += g
+        if s_i < 11:
+            # a policy that IS one custom check, answering with each truthy / falsy value in turn: by name, through a
+            # reference, and handed over as a check object
+            val = [None, 0, '', 0.0, False, True, 1, 'yes', 2.5, [], [0]][s_i]
+            for rl, rule in [({'m': 'c3a:m'}, ('name', 'm')), ({'m': 'c4a:m', 'via': 'rule:m'}, ('name', 'via')),
+                             ({'m': 'c4b:m'}, ('obj', 'c4b:m', None)), ({'m': 'c3a:m', 'via': 'rule:m'}, ('obj', 'rule:m', None))]:
+                base = base_case(rules=rl, default=('none',), rule=rule, creds={'roles': []}, target={},
+                                 custom={'c4a': val, 'c3a': val, 'c4b': val})
+                g = variants(rng, base)
+                groups.append((len(cases), len(g)))
+                cases += g
         # an empty rule table, and a target whose keys the debug dump would mask
         for rl, tg, rule in [({}, {}, ('name', 'anything')),
                              ({'m': "'tv':%(auth_token)s and 'pw':%(password)s"},
@@ -212,9 +223,22 @@ def exotic_targets():
     class Odd:
         def __repr__(self):
             raise RuntimeError('no repr')
+
+    class NoCopy:
+        def __deepcopy__(self, memo):
+            raise RuntimeError('no copy')
+
+        def __copy__(self):
+            raise RuntimeError('no copy')
+
+        def __reduce_ex__(self, proto):
+            raise RuntimeError('no pickle')
     return [('self-referential dict', t1), ('cyclic list inside', t2), ('3000 levels deep', t3),
             ('mapping with an unreadable key', M()), ('value whose repr fails', {'k': 'x', 'o': Odd()}),
-            ('non-string keys', {'k': 'x', 1: 2, None: 3, (1, 2): 4})]
+            ('non-string keys', {'k': 'x', 1: 2, None: 3, (1, 2): 4}),
+            ('value that cannot be copied (a lock)', {'k': 'x', 'session': __import__('threading').Lock()}),
+            ('value that cannot be copied (a generator)', {'k': 'x', 'rows': (i for i in range(3))}),
+            ('value whose copy fails', {'k': 'x', 'o': NoCopy()})]
 
 
 def exotic_inputs(run):
@@ -236,7 +260,8 @@ def exotic_inputs(run):
                         outs[debug] = run_impl(c, deep=tg)[0]
                         n += 1
                         run.evaluations += 1
-                    want = ('ret', True) if allow else (('exc',) if dr else ('ret', False))
+                    want = ('ret', True) if allow else (
+                        ('exc', 'PolicyNotAuthorized' if exc is None else 'Custom%s' % exc) if dr else ('ret', False))
                     ok = outs[False][:len(want)] == want and outs[True][:2] == outs[False][:2]
                     if not ok:
                         d = describe(c)
